@@ -31,7 +31,10 @@ type Case struct {
 	State   string // CONFIGURED | RUNNING
 	Victim  int
 	Kind    string // TASK_FAILED TASK_LOST TASK_KILLED TASK_FINISHED EXECUTOR_FAILURE AGENT_FAILURE INTERNAL_ERROR
-	Instant string // idle | parked (a transition is parked on a gated reply) | after (right after a transition returned)
+	Instant string // idle | parked (a transition is parked on a gated reply) | after (right after a transition returned) |
+	//                burst (the fault arrives together with the replies of all other tasks to an in-flight transition)
+	Reconnect int // 0: no; 1: the master connection is dropped once after the creation and the reconciliation answers are as the master
+	//               generates them (no executor id, labels, uuid); 2: same with fully filled answers
 }
 
 var hosts = []string{"hosta", "hostb", "hostc"}
@@ -113,10 +116,11 @@ func run(c Case) (res vh.Result) {
 	var mu sync.Mutex
 	var gate *simworld.Gate
 	gateTask := -1
+	gateSet := map[int]bool{} // burst: every task in this set is held
 	w.Master.OnCommand = func(t *simworld.SimTask, cmd *simworld.Command) simworld.Reply {
 		mu.Lock()
 		defer mu.Unlock()
-		if i, ok := idx[simworld.ClassOf(t)]; ok && gate != nil && i == gateTask {
+		if i, ok := idx[simworld.ClassOf(t)]; ok && gate != nil && (i == gateTask || gateSet[i]) {
 			g := gate
 			return simworld.Reply{Hold: g}
 		}
@@ -139,6 +143,24 @@ func run(c Case) (res vh.Result) {
 	}
 	victim := c.Victim % len(c.Tasks)
 	vt := taskOf[victim]
+	if c.Reconnect > 0 {
+		w.Master.ReconcileBare = c.Reconnect == 1
+		defer func() { w.Master.ReconcileBare = false }()
+		for len(w.Master.Subscribed) > 0 {
+			<-w.Master.Subscribed
+		}
+		w.Master.DropStream()
+		select {
+		case <-w.Master.Subscribed:
+		case <-time.After(30 * time.Second):
+			return inconclusive("the core did not resubscribe")
+		}
+		time.Sleep(800 * time.Millisecond) // reconciliation answers processed
+		if ge, err := w.GetEnv(id, false); err != nil || ge.GetEnvironment().GetState() != "CONFIGURED" {
+			return inconclusive("environment not CONFIGURED after the reconnection")
+		}
+		steps = append(steps, fmt.Sprintf("master connection dropped and re-established (bare answers: %v)", c.Reconnect == 1))
+	}
 
 	// who is affected, and is any affected task critical?
 	affected := []int{}
@@ -219,6 +241,95 @@ func run(c Case) (res vh.Result) {
 			time.Sleep(30 * time.Millisecond)
 		}
 		inject()
+	case "burst":
+		// START (from CONFIGURED) resp. STOP (from RUNNING) is in flight: the affected tasks have answered, the replies of all
+		// the others are held; then the fault and all those replies reach the core together
+		others := []int{}
+		for i := range c.Tasks {
+			hit := false
+			for _, a := range affected {
+				if a == i {
+					hit = true
+				}
+			}
+			if !hit {
+				others = append(others, i)
+			}
+		}
+		op := pb.ControlEnvironmentRequest_START_ACTIVITY
+		if c.State == "RUNNING" {
+			if err := start(); err != nil {
+				return inconclusive("%v", err)
+			}
+			op = pb.ControlEnvironmentRequest_STOP_ACTIVITY
+		}
+		if len(others) == 0 {
+			inject()
+			break
+		}
+		healthy = map[string]string{"RUNNING": "CONFIGURED", "CONFIGURED": "RUNNING"}[c.State]
+		g := simworld.NewGate()
+		mu.Lock()
+		gate = g
+		for _, o := range others {
+			gateSet[o] = true
+		}
+		mu.Unlock()
+		logMark := w.Note("holding the replies of %v to %s", others, op)
+		done := make(chan struct{})
+		go func() {
+			rep, err := w.Control(id, op, 60*time.Second)
+			steps = append(steps, fmt.Sprintf("%s returned state=%s run=%d err=%v", op, rep.GetState(), rep.GetCurrentRunNumber(), err))
+			if rep.GetCurrentRunNumber() != 0 {
+				runNumber = rep.GetCurrentRunNumber()
+			}
+			close(done)
+		}()
+		if !g.AwaitArrival(len(others), 10*time.Second) {
+			g.Open()
+			return inconclusive("transition did not reach the gated tasks")
+		}
+		deadline := time.Now().Add(5 * time.Second)
+		for {
+			answered := 0
+			for _, r := range w.Log() {
+				if r.Seq <= logMark || r.Kind != "reply" {
+					continue
+				}
+				if m, ok := r.Data.(map[string]interface{}); ok {
+					for _, a := range affected {
+						if m["taskId"] == taskOf[a].ID {
+							answered++
+						}
+					}
+				}
+			}
+			if answered >= len(affected) {
+				break
+			}
+			if time.Now().After(deadline) {
+				g.Open()
+				return inconclusive("affected tasks did not answer the command")
+			}
+			time.Sleep(5 * time.Millisecond)
+		}
+		time.Sleep(60 * time.Millisecond) // the affected tasks' replies are processed
+		if c.Kind == "INTERNAL_ERROR" && vh.Open("KF-C03-internal-error-after-reply") {
+			time.Sleep(250 * time.Millisecond)
+			raceAvoided = true
+		}
+		mu.Lock()
+		gate = nil
+		mu.Unlock()
+		opened := make(chan struct{})
+		go func() { g.Open(); close(opened) }()
+		inject()
+		<-opened
+		select {
+		case <-done:
+		case <-time.After(150 * time.Second):
+			return fail("request-hangs", "the transition in flight during the fault did not return")
+		}
 	case "parked":
 		// park START (from CONFIGURED) resp. STOP (from RUNNING) on the gated reply of a non-victim task
 		other := -1
@@ -314,6 +425,9 @@ func run(c Case) (res vh.Result) {
 
 	res.NonTrivial = true
 	res.Classes = []string{"kind:" + c.Kind, "instant:" + c.Instant, "state:" + c.State, fmt.Sprintf("critical:%v", critical)}
+	if c.Reconnect > 0 {
+		res.Classes = append(res.Classes, fmt.Sprintf("after-reconnection:%d", c.Reconnect))
+	}
 	if raceAvoided {
 		res.Classes = append(res.Classes, "reply-race-avoided")
 	}
@@ -383,7 +497,13 @@ func gen(t *rapid.T) Case {
 	c.State = rapid.SampledFrom([]string{"CONFIGURED", "RUNNING", "RUNNING"}).Draw(t, "state")
 	c.Victim = rapid.IntRange(0, n-1).Draw(t, "victim")
 	c.Kind = rapid.SampledFrom(kinds).Draw(t, "kind")
-	c.Instant = rapid.SampledFrom([]string{"idle", "idle", "parked", "after"}).Draw(t, "instant")
+	c.Instant = rapid.SampledFrom([]string{"idle", "idle", "parked", "after", "burst"}).Draw(t, "instant")
+	if c.Instant == "burst" { // a burst needs tasks: 2-4 more
+		for k := rapid.IntRange(2, 4).Draw(t, "more"); k > 0; k-- {
+			c.Tasks = append(c.Tasks, TaskSpec{Host: rapid.IntRange(0, 2).Draw(t, "host"), Critical: rapid.IntRange(0, 3).Draw(t, "critical") > 0, Group: rapid.IntRange(0, 2).Draw(t, "group")})
+		}
+	}
+	c.Reconnect = rapid.SampledFrom([]int{0, 0, 0, 1, 1, 2}).Draw(t, "reconnect")
 	// exclusions while findings are open
 	if (vh.Open("KF-C03-task-finished") || vh.Open("KF-C03-task-finished-configured")) && c.Kind == "TASK_FINISHED" && c.Tasks[c.Victim].Critical {
 		c.Kind = "TASK_FAILED"
@@ -444,4 +564,21 @@ func TestCanaryInternalErrorAfterReply(t *testing.T) {
 func TestCanaryTaskFinishedConfigured(t *testing.T) {
 	defer simworld.Discard()
 	vh.Canary(t, prop, "KF-C03-task-finished-configured", Case{Tasks: two(true, true), State: "CONFIGURED", Victim: 0, Kind: "TASK_FINISHED", Instant: "idle"}, vh.Confirmed(run))
+}
+
+// A critical task fails after the master connection was dropped and re-established (reconciliation answers as the master
+// generates them), and a fault that reaches the core together with a burst of replies from the other tasks: repeated,
+// because which notification of the workflow state is dropped by the (non-blocking) subscription depends on scheduling.
+func TestFixedReconnectAndBurst(t *testing.T) {
+	defer simworld.Discard()
+	for _, k := range []string{"TASK_FAILED", "EXECUTOR_FAILURE", "TASK_LOST"} {
+		for _, st := range []string{"CONFIGURED", "RUNNING"} {
+			vh.Fixed(t, prop, fmt.Sprintf("after-reconnection-%s-%s", k, st), Case{Tasks: two(true, true), State: st, Victim: 0, Kind: k, Instant: "idle", Reconnect: 1}, vh.Confirmed(run))
+		}
+	}
+	six := []TaskSpec{{Host: 0, Critical: true}, {Host: 1, Critical: true, Group: 1}, {Host: 2, Critical: true, Group: 1}, {Host: 0, Critical: true, Group: 2}, {Host: 1, Critical: true}, {Host: 2, Critical: true, Group: 2}}
+	for i := 0; i < vh.Scale(12, 150); i++ {
+		st := []string{"CONFIGURED", "RUNNING"}[i%2]
+		vh.Fixed(t, prop, fmt.Sprintf("burst-%d", i), Case{Tasks: six, State: st, Victim: i % 6, Kind: "TASK_FAILED", Instant: "burst"}, vh.Confirmed(run))
+	}
 }
